@@ -62,6 +62,8 @@ def apply_spec(mod, spec):
                     v = mod.LoopType(v)
                 setattr(s, f, v)
             mod.samples[e["i"]] = s
+        elif k == "sample_clear":
+            mod.samples[e["i"]] = None
         elif k == "sample_alias":
             mod.samples[e["to"]] = mod.samples[e["from"]]      # the SAME Sample object in a second slot
         elif k == "env":
@@ -289,6 +291,14 @@ def object_cases(ctx):
             add("slot-subset", [{"k": "sample", "i": i, "data": "frame", "fields": {"volume": 10 + j}} for j, i in enumerate(sub)])
     for i in range(128):
         add("single-slot", [{"k": "sample", "i": i, "data": "all256"}])
+    # histories of filling and EMPTYING slots (also slots that are empty already): whatever bookkeeping follows the
+    # assignments must end where a sampler built directly into the final state ends
+    slot_ops = [{"k": "sample", "i": i, "data": "odd", "fields": {"volume": 20 + i}} for i in (0, 2, 5)] + \
+               [{"k": "sample_clear", "i": i} for i in (0, 2, 5)]
+    for n in (2, 3):
+        for seq in itertools.product(slot_ops, repeat=n):
+            if any(e["k"] == "sample_clear" for e in seq):
+                add("slot-history", [dict(e) for e in seq])
     for a, b in ((1, 6), (0, 127), (5, 2)):
         add("same-sample-object-in-two-slots", [{"k": "sample", "i": a, "data": "odd", "fields": {"volume": 33}},
                                                 {"k": "sample", "i": 4, "data": "frame"}, {"k": "sample_alias", "from": a, "to": b}])
@@ -462,6 +472,29 @@ def _legacy_build():
                 d = pack("<I", 8000 + 1000 * k)
             out3.append((cid, d))
         variants[name + ":rates"] = codec.build_chunks(out3)
+    # records of OLDER layouts: cut after the version word (0x104), inside and after the 128-entry note map, before the
+    # editor fields -- the entries the shorter record does not have come from the 96-entry map at 0x24 (documented as the
+    # older form of the same table), the rest stay at sample 0
+    for size in (0x104, 0x105, 0x110, 0x144, 0x164, 0x17A, 0x17B, 0x183, 0x184, 0x188, 0x18C):
+        r3 = bytearray(rec)
+        for i in range(96):
+            r3[0x24 + i] = 1 + i % 5
+        for i in range(128):
+            r3[0x104 + i] = 6 + i % 3
+        o4 = list(chunks)
+        o4[rec_i] = (b"CHDT", bytes(r3[:size]))
+        name = f"short-record:{size:#x}"
+        variants[name] = codec.build_chunks(o4)
+        _LEGACY_RECORDS[name] = bytes(r3[:size])
+    # the instrument name is a BYTE field (old files hold names in 8-bit code pages): any bytes, in files with and without
+    # envelope chunks
+    for label, base_chunks, ri in (("as-is", chunks, rec_i), ("no-envelope-chunks", out, ri_out)):
+        for nm in (b"\xcf\xf0\xe8\xe2\xe5\xf2", b"\xff\xfe name", bytes(range(0x80, 0x96))):
+            r5 = bytearray(rec)
+            r5[4:26] = nm.ljust(22, b"\0")
+            o5 = list(base_chunks)
+            o5[ri] = (b"CHDT", bytes(r5))
+            variants[f"{label}:name-bytes-{nm[:2].hex()}"] = codec.build_chunks(o5)
     return variants, rec
 
 
@@ -492,6 +525,15 @@ def _legacy_run(variants, rec):
                 if got_idx != want_idx:
                     vs.append(C.viol("legacy-envelope-conversion", dict(key, envelope=which, part="sustain/loop indices"),
                                      {"expected": want_idx, "observed": got_idx}, case))
+        if name.startswith("short-record"):
+            r_ = _LEGACY_RECORDS[name]
+            newmap = r_[0x104:0x184]
+            got = [int(v) for v in s1["module"]["payload"]["note_samples"]]
+            want = [newmap[i] if i < len(newmap) else (r_[0x24 + i] if i < 96 else 0) for i in range(len(got))]
+            if got != want:
+                bad = [i for i in range(len(got)) if got[i] != want[i]]
+                vs.append(C.viol("short-record-note-map", dict(key), {"first_wrong_note": bad[0], "expected": want[bad[0]],
+                                                                     "observed": got[bad[0]], "wrong": len(bad)}, case))
         try:
             y = C.save(o1)
             o2 = C.load_bytes(y)
@@ -501,6 +543,12 @@ def _legacy_run(variants, rec):
         d = S.diff(s1, S.snapshot(o2))
         if d:
             vs.append(C.viol("legacy-data-lost-on-save", dict(key, path=C.first_diff_key(d)), {"diff": S.diff_text(d)}, case))
+        if "name-bytes" in name:
+            n1 = bytes(o1.module.instrument_name).rstrip(b"\0")
+            n2 = bytes(o2.module.instrument_name).rstrip(b"\0")
+            want_nm = bytes.fromhex(name.rsplit("-", 1)[1])
+            if not n1.startswith(want_nm) or n1 != n2:
+                vs.append(C.viol("instrument-name-bytes", dict(key), {"loaded": n1.hex(), "after_resave": n2.hex()}, case))
     return n, vs
 
 
